@@ -1,2 +1,67 @@
-(* C03 -- subscriptions. (statements to be added) *)
-From WB Require Import Base.Str Model.Key Model.Subs Model.Core.
+(* C03 -- A subscription delivers current state, then every matching change once, in order.
+   Statements only; proofs in Proofs/SubsFacts.v, Proofs/C03Proof.v.  The per-subscription
+   queue is the list of events the model emits for that channel, request after request; what
+   is proved here is the content of every single emission and the registration bookkeeping.
+   The history-level statement "queue = snapshot ++ one event per later accepted matching change"
+   is not yet proved in Coq (covered by the correspondence and the event-specification oracle). *)
+From WB Require Import Base.Str Base.Json Model.Key Model.Store Model.Match Model.Subs Model.Entry Model.Core
+  Proofs.SubsFacts Proofs.MatchFacts Proofs.C03Proof.
+
+(* routing through the subscriber tree = the relation sub_match on the registered position *)
+Theorem C03_routing :
+  forall key (n : snode) sb, wfs n ->
+    (In sb (add_matches n key) <-> exists P, In sb (subs_at n P) /\ sub_match P key = true).
+Proof. exact add_matches_spec. Qed.
+Print Assumptions C03_routing.
+
+(* and for a well-formed pattern that relation is the documented one *)
+Theorem C03_routing_is_documented :
+  forall p k, wf_pat p = true -> sub_match p k = doc_match p k.
+Proof. exact sub_eq_doc. Qed.
+Print Assumptions C03_routing_is_documented.
+
+(* one accepted change produces, per registered subscriber whose pattern matches the key, exactly
+   the event of that change -- suppressed iff the subscriber is unique and the value did not change *)
+Theorem C03_notify_exact :
+  forall s path key v changed deleted i ev, wfs (subs s) ->
+    (In (i, ev) (notify s path key v changed deleted) <->
+     exists sb P, In sb (subs_at (subs s) P) /\ sub_match P path = true /\
+                  (changed || negb (s_unique sb)) = true /\
+                  i = s_inst sb /\ ev = event_for sb key v deleted).
+Proof. exact notify_spec. Qed.
+Print Assumptions C03_notify_exact.
+
+(* psubscribe: one new subscriber at its pattern with a fresh channel; the snapshot is pget's
+   answer at that moment, put into that channel before anything else; a refused psubscribe
+   (ill-formed pattern reached) changes nothing *)
+Theorem C03_psubscribe :
+  forall s c t pattern unique live, SInv s ->
+    match o_res (snd (do_psubscribe s c t pattern unique live)) with
+    | RSub inst =>
+        inst = next_inst s /\ next_inst (fst (do_psubscribe s c t pattern unique live)) = inst + 1 /\
+        SInv (fst (do_psubscribe s c t pattern unique live)) /\
+        (forall P x, In x (subs_at (subs (fst (do_psubscribe s c t pattern unique live))) P) <->
+                     In x (subs_at (subs s) P) \/
+                     (x = Subscriber c t inst (kseg_parse pattern) unique true /\ P = kseg_parse pattern)) /\
+        data (fst (do_psubscribe s c t pattern unique live)) = data s /\
+        o_events (snd (do_psubscribe s c t pattern unique live)) =
+          (if live then []
+           else match do_pget s pattern with Ok kvs => [(inst, EPValue kvs)] | Err _ => [] end)
+    | RErr code => fst (do_psubscribe s c t pattern unique live) = s /\ live = false /\ do_pget s pattern = Err code
+    | _ => False
+    end.
+Proof. exact psubscribe_spec. Qed.
+Print Assumptions C03_psubscribe.
+
+(* known finding F2 in this property's terms: the snapshot of `k/#` contains k, later changes of k
+   are not routed to it *)
+Theorem C03_F2_refuted :
+  exists p k, wf_pat p = true /\ store_match p k = true /\ sub_match p k = false.
+Proof. exists [Reg [107]; Multi], [[107]]. vm_compute. auto. Qed.
+Print Assumptions C03_F2_refuted.
+
+Example C03_nonvacuous :
+  map o_events (run init [OPSubscribe 2 1 [97;47;35] false false; OSet 1 [97;47;98] (JNum [49]) false;
+                          OSet 1 [97;47;98] (JNum [49]) false; OUnsubscribe 2 1; OSet 1 [97;47;98] (JNum [50]) false]) =
+  [[(0, EPValue [])]; [(0, EPValue [([97;47;98], JNum [49])])]; [(0, EPValue [([97;47;98], JNum [49])])]; []; []].
+Proof. vm_compute. reflexivity. Qed.
